@@ -3,6 +3,7 @@
    Output: one line per function, `fn <name> ok <lines>` or `fn <name> VIOLATION <why>`. -/
 import ChibiVerif.Model.Codegen
 import ChibiVerif.Model.Effect
+import ChibiVerif.Gen.CastTableGen
 
 namespace ChibiVerif.Driver
 open ChibiVerif
@@ -29,5 +30,25 @@ def effectMain (args : List String) : IO UInt32 := do
   | _ =>
     IO.eprintln "usage: drv_c20 effect <dumpfile>"
     return 2
+
+
+/-- `drv_c20 cells`: the effect of every cell of the regenerated cast_table, by path analysis:
+      cell <from> <to> ok <rsp> <x87> | cell <from> <to> UNBALANCED <two paths that disagree> -/
+def cellsMain : IO UInt32 := do
+  let names := Gen.CastTable.typeIdNames
+  let mut t1 := 0
+  for row in Gen.CastTable.castTable do
+    let mut t2 := 0
+    for cell in row do
+      match cell with
+      | none => pure ()
+      | some l =>
+        let is := l.instrs
+        match Effect.lineDelta l with
+        | some d => IO.println s!"cell {names.getD t1 "?"} {names.getD t2 "?"} ok {d.rsp} {d.x87}"
+        | none => IO.println s!"cell {names.getD t1 "?"} {names.getD t2 "?"} UNBALANCED {Effect.multiWhy is}"
+      t2 := t2 + 1
+    t1 := t1 + 1
+  return 0
 
 end ChibiVerif.Driver
